@@ -71,11 +71,18 @@ static int validate_checksums(zckCtx *zck, zck_log_type bad_checksums) {
 
     /* Check each chunk checksum */
     bool all_good = true;
+    bool truncated = false;
     for(zckChunk *idx = zck->index.first; idx; idx = idx->next) {
         if(idx == zck->index.first && idx->length == 0) {
             idx->valid = 1;
             if(zck->header_only)
                 break;
+            continue;
+        }
+
+        /* Once the file has ended, the remaining chunks aren't there */
+        if(truncated) {
+            idx->valid = -1;
             continue;
         }
 
@@ -87,8 +94,15 @@ static int validate_checksums(zckCtx *zck, zck_log_type bad_checksums) {
             size_t rsize = BUF_SIZE;
             if(BUF_SIZE > idx->comp_length - rlen)
                 rsize = idx->comp_length - rlen;
-            if(read_data(zck, buf, rsize) != rsize)
+            ssize_t rb = read_data(zck, buf, rsize);
+            if(rb < 0)
+                return 0;
+            if((size_t)rb != rsize) {
+                /* Don't hash whatever was left in the buffer */
                 zck_log(ZCK_LOG_DEBUG, "No more data");
+                truncated = true;
+                break;
+            }
             if(!hash_update(zck, &(zck->check_chunk_hash), buf, rsize))
                 return 0;
             if(!zck->has_uncompressed_source) {
@@ -96,6 +110,13 @@ static int validate_checksums(zckCtx *zck, zck_log_type bad_checksums) {
                     return 0;
             }
             rlen += rsize;
+        }
+        if(truncated) {
+            idx->valid = -1;
+            all_good = false;
+            if(zck->header_only)
+                break;
+            continue;
         }
         int valid_chunk = validate_chunk(idx, bad_checksums);
         if(!valid_chunk)
@@ -409,21 +430,32 @@ int ZCK_PUBLIC_API zck_validate_data_checksum(zckCtx *zck) {
     char buf[BUF_SIZE] = {0};
     zckChunk *idx = zck->index.first;
     zck_log(ZCK_LOG_DEBUG, "Checking full hash");
-    while(idx) {
+    bool truncated = false;
+    while(idx && !truncated) {
         size_t to_read = idx->comp_length;
         while(to_read > 0) {
             size_t rb = BUF_SIZE;
             if(rb > to_read)
                 rb = to_read;
-            if(!read_data(zck, buf, rb))
+            ssize_t read_bytes = read_data(zck, buf, rb);
+            if(read_bytes < 0)
                 return 0;
+            if((size_t)read_bytes != rb) {
+                /* The file ends before the data does, so it can't match */
+                truncated = true;
+                break;
+            }
             if(!hash_update(zck, &(zck->check_full_hash), buf, rb))
                 return 0;
             to_read -= rb;
         }
         idx = idx->next;
     }
-    int ret = validate_file(zck, ZCK_LOG_WARNING);
+    int ret = -1;
+    if(truncated)
+        zck_log(ZCK_LOG_WARNING, "Data checksum failed: file is truncated");
+    else
+        ret = validate_file(zck, ZCK_LOG_WARNING);
     if(!seek_data(zck, zck->data_offset, SEEK_SET))
         return 0;
     if(!hash_init(zck, &(zck->check_full_hash), &(zck->hash_type)))
